@@ -38,6 +38,7 @@ example : Valid W0 5 (State.init 5 true) actsLate := valid_of_validB _ _ _ _ (by
 corpus, and its claims are listed although the delete claim came first -/
 example : (run W0 5 (State.init 5 true) actsLate).observe [1, 2, 3, 4] [2] 10 =
     some { metas := [(1, some [449, 0, 116]), (2, some [557, 1]), (3, some [726, 2]), (4, some [675, 2])],
+           backs := [(1, []), (2, []), (3, []), (4, [])],
            deleted := [(1, false, false), (2, true, true), (3, false, false), (4, false, false)],
            pns := [⟨2, [3, 4], 2000, 2000, some (0, 1), none, none⟩],
            byMod := [], byCreated := [], bad := false } := by decide
